@@ -8,6 +8,7 @@ import Proofs.KNCorpus
 import Proofs.KNProb
 import Proofs.KNCorpus3
 import Proofs.KNCorpus4
+import Proofs.KNInterp2
 /-!
 # C06 — lmplz output is a proper, closed, loadable language model
 
@@ -103,6 +104,23 @@ theorem normalised_corpus (cfg : Cfg) (pv : Bool) (fallback : Option Disc) (corp
     (hthr : ∀ i, i < cfg.order - 1 → cfg.thr i ≤ cfg.thr (i + 1)) (ctx : Gram) :
     ((Query.vocabNoBos m.orders).map (Query.score m.orders ctx)).sum = 1 :=
   KV.KN.Norm.normalised_corpus cfg pv fallback corpus m hm h2 hne hw hthr ctx
+
+/-- **normalised, for the streaming pipeline** (the model that is differentially tied to the C++):
+by `KV.KN.Interp.estimate_eq_spec` the transcription of `AdjustCounts`/`InitialProbabilities`/
+`Interpolate` returns the specification's model, hence a normalised one. -/
+theorem normalised_stream (cfg : Cfg) (pv : Bool) (fallback : Option Disc) (corpus : List (List Word))
+    (m : Model) (hm : estimate cfg pv fallback corpus = .ok m) (h2 : 2 ≤ cfg.order)
+    (hne : corpus ≠ []) (hw : ∀ s ∈ corpus, ∀ w ∈ s, 3 ≤ w)
+    (hthr : ∀ i, i < cfg.order - 1 → cfg.thr i ≤ cfg.thr (i + 1))
+    (hk : cfg.keepSpecials = true) (hfix : cfg.flushAdjusted = true)
+    (hpv : pv = false → ∀ w, cfg.excl w = false) (ctx : Gram) :
+    ((Query.vocabNoBos m.orders).map (Query.score m.orders ctx)).sum = 1 := by
+  rw [KV.KN.Interp.estimate_eq_spec cfg pv fallback corpus (by omega) hne hw hthr hk hfix hpv] at hm
+  exact normalised_corpus cfg pv fallback corpus m hm h2 hne hw hthr ctx
+
+/- `intermediate_eq`: in the model the ARPA text and the intermediate files are two sinks of the
+same list `m.orders` / `m.header` (`Output::SinkProbs`), so there is nothing to prove; the check
+compares the real files value by value (float bit patterns) and the metadata counts. -/
 
 /-- the order-1 model -/
 theorem normalised_corpus1 (cfg : Cfg) (pv : Bool) (fallback : Option Disc) (corpus : List (List Word))
